@@ -1,8 +1,9 @@
 CONSTANTS
  Copies = {"c1", "c2"}
- Confs <- ShapeConfs
+ Confs <- ShapeConfsOn
  MaxCloses = 2
  MaxOps = 1
+ Eager = TRUE
 SPECIFICATION Spec
 INVARIANTS TypeOK LocksNonNeg LocksExact MarkIsReach FallbackPresent CopyKeeps
 PROPERTIES O1 O2 O3 O4 OnlyCloseDeletes
